@@ -303,3 +303,38 @@ seed('c14-n-exhaustive-le', 'C14', [(DUB, "        tmp = dubinsRLR(d, alpha, bet
 seed('c14-n-straight-commuted', 'C14', [(RS, "                s->setXY(s->getX() + v * cos(phi), s->getY() + v * sin(phi));", "                s->setXY(cos(phi) * v + s->getX(), sin(phi) * v + s->getY());")], None)
 seed('c14-n-helper-reordered', 'C14', [(DUB, "        const double theta = atan2f(cb - ca, d + sa - sb);\n        return mod2pi(-alpha + theta);  // t", "        const double theta = atan2f(-ca + cb, sa + d - sb);\n        return mod2pi(theta - alpha);  // t")], None)
 seed('c14-n-cell-a13-flipped', 'C14', [(DUB, "                if (s_13(d, alpha, beta) < 0.0)\n                {\n                    path = dubinsRSR(d, alpha, beta);\n                }\n                else\n                {\n                    path = dubinsLSR(d, alpha, beta);\n                }", "                if (s_13(d, alpha, beta) >= 0.0)\n                {\n                    path = dubinsLSR(d, alpha, beta);\n                }\n                else\n                {\n                    path = dubinsRSR(d, alpha, beta);\n                }")], None)
+
+# ---- C15 -------------------------------------------------------------------------------------------------------
+PLDC = 'src/ompl/base/samplers/informed/src/PathLengthDirectInfSampler.cpp'
+REJC = 'src/ompl/base/samplers/informed/src/RejectionInfSampler.cpp'
+ORDC = 'src/ompl/base/samplers/informed/src/OrderedInfSampler.cpp'
+INFC = 'src/ompl/base/samplers/src/InformedStateSampler.cpp'
+PHSC = 'src/ompl/util/src/ProlateHyperspheroid.cpp'
+GEOC = 'src/ompl/util/src/GeometricEquations.cpp'
+RNGC = 'src/ompl/util/src/RandomNumbers.cpp'
+seed('c15-phs-no-bounds-test', 'C15', [(PLDC, "                    foundSample = InformedSampler::space_->satisfiesBounds(statePtr);\n", "")], 'R15a')
+seed('c15-bounds-test-before-write', 'C15', [(PLDC, "                    // Turn into a state of our full space\n                    createFullState(statePtr, informedVector);\n\n                    // Return if the resulting state is in the problem:\n                    foundSample = InformedSampler::space_->satisfiesBounds(statePtr);", "                    foundSample = InformedSampler::space_->satisfiesBounds(statePtr);\n                    createFullState(statePtr, informedVector);")], 'R15a')
+seed('c15-base-no-phs-test', 'C15', [(PLDC, "                foundSample = isInAnyPhs(informedVector);\n", "                foundSample = true;\n")], 'R15a')
+seed('c15-base-stale-substate', 'C15', [(PLDC, "                // Generate a random sample\n                baseSampler_->sampleUniform(statePtr);\n\n                // The informed substate\n                std::vector<double> informedVector = getInformedSubstate(statePtr);", "                std::vector<double> informedVector = getInformedSubstate(statePtr);\n                baseSampler_->sampleUniform(statePtr);")], 'R15a')
+seed('c15-min-bound-dropped', 'C15', [(PLDC, "                    foundSample = InformedSampler::opt_->isCostEquivalentTo(minCost, sampledCost) ||\n                                  InformedSampler::opt_->isCostBetterThan(minCost, sampledCost);", "                    foundSample = InformedSampler::opt_->isCostBetterThan(sampledCost, maxCost);")], 'R15a')
+seed('c15-rejection-wrong-bound', 'C15', [(REJC, "                    foundSample = InformedSampler::opt_->isCostEquivalentTo(minCost, sampledCost) ||\n                                  InformedSampler::opt_->isCostBetterThan(minCost, sampledCost);", "                    foundSample = InformedSampler::opt_->isCostEquivalentTo(maxCost, sampledCost) ||\n                                  InformedSampler::opt_->isCostBetterThan(maxCost, sampledCost);")], 'R15a')
+seed('c15-ordered-no-cost-test', 'C15', [(ORDC, "                if (InformedSampler::opt_->isCostBetterThan(InformedSampler::heuristicSolnCost(orderedSamples_.top()),\n                                                            maxCost))", "                if (!orderedSamples_.empty())")], 'R15a')
+seed('c15-ordered-queue-failed', 'C15', [(ORDC, "                if (infSampler_->sampleUniform(newStatePtr, maxCost))\n                {", "                infSampler_->sampleUniform(newStatePtr, maxCost);\n                {"), (ORDC, "                else\n                {\n                    InformedSampler::space_->freeState(newStatePtr);\n                }\n", "")], 'R15a')
+seed('c15-keep-inverted', 'C15', [(PLDC, "                keep = (randDbl <= 1.0 / static_cast<double>(numIn));", "                keep = (randDbl >= 1.0 / static_cast<double>(numIn));")], 'R15b')
+seed('c15-keep-count-not-inverse', 'C15', [(PLDC, "                keep = (randDbl <= 1.0 / static_cast<double>(numIn));", "                keep = (randDbl <= 1.0 / static_cast<double>(listPhsPtrs_.size()));")], 'R15b')
+seed('c15-measure-first-phs-only', 'C15', [(PLDC, "                    informedMeasure = informedMeasure + phsPtr->getPhsMeasure(currentCost.value());", "                    informedMeasure = listPhsPtrs_.front()->getPhsMeasure(currentCost.value());")], 'R15c')
+seed('c15-inclusions-break', 'C15', [(PLDC, "                    ++numInclusions;\n                }", "                    ++numInclusions;\n                    break;\n                }")], 'R15c')
+seed('c15-phs-measure-exponent', 'C15', [(GEOC, "    for (unsigned int i = 1u; i < N; ++i)\n    {\n        lmeas = lmeas * conjugateDiameter / 2.0;", "    for (unsigned int i = 0u; i < N; ++i)\n    {\n        lmeas = lmeas * conjugateDiameter / 2.0;")], 'R15d')
+seed('c15-conjugate-sum', 'C15', [(PHSC, "    conjugateDiamater = std::sqrt(dataPtr_->transverseDiameter_ * dataPtr_->transverseDiameter_ -\n                                  dataPtr_->minTransverseDiameter_ * dataPtr_->minTransverseDiameter_);", "    conjugateDiamater = std::sqrt(dataPtr_->transverseDiameter_ * dataPtr_->transverseDiameter_ +\n                                  dataPtr_->minTransverseDiameter_ * dataPtr_->minTransverseDiameter_);")], 'R15d')
+seed('c15-first-radius-full-diameter', 'C15', [(PHSC, "    diagAsVector(0) = 0.5 * dataPtr_->transverseDiameter_;", "    diagAsVector(0) = dataPtr_->transverseDiameter_;")], 'R15d')
+seed('c15-measure-args-swapped', 'C15', [(PHSC, "    return prolateHyperspheroidMeasure(dataPtr_->dim_, dataPtr_->minTransverseDiameter_, tranDiam);", "    return prolateHyperspheroidMeasure(dataPtr_->dim_, tranDiam, dataPtr_->minTransverseDiameter_);")], 'R15d')
+seed('c15-in-phs-nonstrict', 'C15', [(PHSC, "    return (getPathLength(point) < dataPtr_->transverseDiameter_);", "    return (getPathLength(point) <= dataPtr_->transverseDiameter_);")], 'R15e')
+seed('c15-pathlength-one-focus', 'C15', [(PHSC, "           (Eigen::Map<const Eigen::VectorXd>(point, dataPtr_->dim_) - dataPtr_->xFocus2_).norm();", "           (Eigen::Map<const Eigen::VectorXd>(point, dataPtr_->dim_) - dataPtr_->xFocus1_).norm();")], 'R15e')
+seed('c15-flag-before-transform', 'C15', [(PHSC, "    // Calculate the transformation matrix\n    dataPtr_->transformationWorldFromEllipse_ = dataPtr_->rotationWorldFromEllipse_ * diagAsVector.asDiagonal();", "    dataPtr_->isTransformUpToDate_ = true;\n    if (dataPtr_->dim_ == 0u)\n        return;\n    dataPtr_->transformationWorldFromEllipse_ = dataPtr_->rotationWorldFromEllipse_ * diagAsVector.asDiagonal();")], 'R15f')
+seed('c15-diameter-without-update', 'C15', [(PHSC, "        // Update the transform\n        updateTransformation();\n", "")], 'R15f')
+seed('c15-ball-radius-linear', 'C15', [(RNGC, "    double radiusScale = r * std::pow(uniformReal(0.0, 1.0), 1.0 / static_cast<double>(v.size()));", "    double radiusScale = r * uniformReal(0.0, 1.0);")], 'R15g')
+seed('c15-phs-from-surface', 'C15', [(RNGC, "    // Get a random point in the sphere\n    uniformInBall(1.0, sphere);", "    // Get a random point in the sphere\n    uniformNormalVector(sphere);")], 'R15g')
+# neutral rewrites
+seed('c15-n-phs-test-local', 'C15', [(PLDC, "                    foundSample = InformedSampler::space_->satisfiesBounds(statePtr);\n", "                    const bool inside = InformedSampler::space_->satisfiesBounds(statePtr);\n                    foundSample = inside;\n")], None)
+seed('c15-n-measure-commuted', 'C15', [(GEOC, "    lmeas = dTransverse / 2.0;", "    lmeas = 0.5 * dTransverse;")], None)
+seed('c15-n-keep-gt', 'C15', [(PLDC, "                keep = (randDbl <= 1.0 / static_cast<double>(numIn));", "                keep = !(randDbl > 1.0 / static_cast<double>(numIn));")], None)
